@@ -3754,6 +3754,11 @@ func (p *Posix) HeadObject(ctx context.Context, input *s3.HeadObjectInput) (*s3.
 	}
 
 	size := fi.Size()
+	if fi.IsDir() {
+		// directory objects have no data, the directory inode size
+		// is not the object size
+		size = 0
+	}
 
 	var objectLockLegalHoldStatus types.ObjectLockLegalHoldStatus
 	status, err := p.GetObjectLegalHold(ctx, bucket, object, versionId)
